@@ -51,12 +51,31 @@ CATALOG = {
 }
 
 
+M_CATALOG = {
+    "C04": [{"engine": "M", "name": "m-c04-dispatch", "functions": ["src/main.rs::main (MIR CFG: dispatch on Context.check_mode)"]}],
+    "C18": [{"engine": "M", "name": "m-c18-signals", "functions": ["src/main.rs::main (MIR: arguments of signal_hook::flag::register)"]}],
+}
+
+
 def obligations(prop, tier):
-    return [dict(o, kw=o[tier], tier=tier) for o in CATALOG.get(prop, [])]
+    return [dict(o, kw=o[tier], tier=tier) for o in CATALOG.get(prop, [])] + [dict(o) for o in M_CATALOG.get(prop, [])]
+
+
+def run_m(ob):
+    import mengine
+    try:
+        r = mengine.analyse()
+    except Exception as e:  # noqa
+        return {"results": [], "errors": ["MIR engine: %s" % e], "validation": None, "wall_s": 0}
+    res = [x for x in r["results"] if x["name"] == ob["name"]]
+    errs = [e for e in r["errors"] if e.startswith(ob["name"])]
+    return {"results": res, "errors": errs, "validation": None, "wall_s": r["wall_s"]}
 
 
 def run_s(ob):
     """run one S obligation: `shards` worker processes; returns merged record"""
+    if ob["engine"] == "M":
+        return run_m(ob)
     procs = []
     t0 = time.time()
     for sh in range(ob["shards"]):
@@ -90,7 +109,11 @@ def run_s(ob):
 def absorb(out, prop, ob, rec):
     import native_replay
     out.functions.update(ob["functions"])
-    out.assume(*S_ASSUME)
+    if ob["engine"] == "M":
+        out.assume("MIR of `main` as dumped by the nightly rustc (-Zunpretty=mir) from /repo's current sources; signal numbers are Linux's; "
+                   "signal-hook installs a handler for exactly the number it is given (library, FFI: not encoded)")
+    else:
+        out.assume(*S_ASSUME)
     name = ob["name"]
     val = rec.get("validation")
     if val:
